@@ -238,6 +238,10 @@ Definition verdict_code (f g : form) : nat :=
   ((if equiv_dec atom_eqb f g then 10 else 0) +
    (if vequiv_dec f g then 2 else if equiv_dec_arith f g then 1 else 0))%nat.
 
+(* one (input, output) pair the real rule yielded; ctx = only the truth value of the node is used *)
+Definition sym_case_ok (c : form * form * bool) : bool :=
+  let '(f, g, ctx) := c in if ctx then equiv_dec_arith f g else vequiv_dec f g.
+
 (* validation of the reference semantics against CPython: value of the formula at a valuation *)
 Definition veval_case_ok (c : form * list (nat * Z) * list nat * val) : bool :=
   let '(f, asg, U, v) := c in val_eqb (veval (lookup asg) (mem_nat U) f) v.
